@@ -273,6 +273,30 @@ fn strings(cx: &mut Cx) {
         }
         cx.count_n("exhaustive_short_strings", count);
     }
+    // every single-character look-alike substitution (same low byte, full-width, Unicode digits,
+    // case-mapping relatives, other case) of canonical texts of every type
+    if cx.shard == 0 && !cx.miri {
+        let mut texts: Vec<String> = Vec::new();
+        for s in 0..64 {
+            texts.push(sq_name(s));
+        }
+        for c in "abcdefgh12345678pnbrqkwb".chars() {
+            texts.push(c.to_string());
+        }
+        for (f, t) in [(12usize, 28usize), (52, 60), (6, 21), (0, 63), (48, 57)] {
+            for p in [None, Some(Piece::Knight), Some(Piece::Queen)] {
+                texts.push(RMove { from: f as u8, to: t as u8, promo: p }.text());
+            }
+        }
+        let mut subs: Vec<String> = Vec::new();
+        for t in &texts {
+            for_all_alias_substitutions(t, &mut |u| subs.push(u.to_string()));
+        }
+        for u in subs {
+            all_types(cx, &u);
+            cx.count("alias_substituted_texts");
+        }
+    }
     // move-shaped strings: every canonical move text with every one-character suffix / edit
     let tail: Vec<char> = "nbrqkpNBRQKP18ah x=+#é\u{301}0".chars().collect();
     let n_moves = if cx.miri { 40 } else { cx.budget(4_000_000, 100_000_000) };
@@ -281,7 +305,8 @@ fn strings(cx: &mut Cx) {
         let t = cx.rng.usize(64);
         let p = *cx.rng.pick(&[None, None, Some(Piece::Knight), Some(Piece::Bishop), Some(Piece::Rook), Some(Piece::Queen)]);
         let base = RMove { from: f as u8, to: t as u8, promo: p }.text();
-        let s = match cx.rng.below(6) {
+        let s = match cx.rng.below(7) {
+            6 => alias_substitution(&mut cx.rng, &base),
             0 => format!("{}{}", base, cx.rng.pick(&tail)),
             1 => format!("{}{}{}", base, cx.rng.pick(&tail), cx.rng.pick(&tail)),
             2 => base.to_ascii_uppercase(),
@@ -334,7 +359,7 @@ pub fn run(cfg: &Cfg) -> Result<Outcome, String> {
             "profile {}: try_offset for all 64x256x256 arguments against i32 arithmetic; offset on all near-board and a sample of far arguments; all coordinate functions on all values; format->parse for all values (moves: 64x64x5); for the six parsers: all strings of length <= 3 over a 21-character alphabet, move texts with suffixes/edits, random Unicode: no panic and parse(s)=Ok(v) => format(v)==s; distinct = distinct generated strings",
             PROFILE
         ),
-        floors: vec![Floor { counter: "try_offset_triples", at_least: 4_194_304 }, Floor { counter: "exhaustive_short_strings", at_least: 9000 }],
+        floors: vec![Floor { counter: "try_offset_triples", at_least: 4_194_304 }, Floor { counter: "exhaustive_short_strings", at_least: 9000 }, Floor { counter: "alias_substituted_texts", at_least: 3000 }],
         exhaustive: false,
         exhaustive_note: "exhaustive: try_offset domain, coordinate functions, format->parse of all values, strings of length <= 3 over the focused alphabet; sampled: longer and Unicode strings".to_string(),
         inconclusive: None,
